@@ -1049,4 +1049,33 @@ theorem blosum_all_one_at_zero (m : Mode) (maxid : ℚ) (hm : maxid ≤ 0) (rows
   have : ((rows.length : ℕ) : ℚ) ≠ 0 := by exact_mod_cast (by omega : rows.length ≠ 0)
   exact div_self this
 
+/-- `esl_msaweight_IDFilter(_adv)` (digital mode, any preference vector) at maxid ≤ 0 keeps exactly one row: the one
+    `esl_quicksort` ranks first -/
+theorem idFilterDigital_keeps_top_at_zero (abc : Abc) (maxid : ℚ) (hm : maxid ≤ 0) (sortwgt : List ℚ) (rows : List Row)
+    (hne : rows ≠ []) :
+    idFilterDigital abc maxid sortwgt rows = [(quicksort (cmpDecreasing sortwgt) rows.length).getD 0 0] := by
+  unfold idFilterDigital idFilterOrder
+  have hlen : (quicksort (cmpDecreasing sortwgt) rows.length).length = rows.length := by
+    rw [(quicksort_permutation _ _).length_eq]; simp
+  cases hq : quicksort (cmpDecreasing sortwgt) rows.length with
+  | nil => rw [hq] at hlen; have := List.length_pos_iff.mpr hne; simp at hlen; omega
+  | cons x rest =>
+    rw [filterGreedy]
+    simp only [List.any_nil, Bool.false_eq_true, if_false, List.nil_append, List.getD_cons_zero]
+    apply filterGreedy_all_linked
+    intro r k
+    have := (pid_range' (Mode.digital abc) (rows.getD r []) (rows.getD k [])).1
+    simp only [linked, leb_rat, decide_eq_true_eq]; linarith
+
+/-! non-vacuity of the hypotheses of the round-4 theorems -/
+example : (∀ x ∈ ([45, 46, 126] : Row), JCMode.text.ok x = false) ∧
+    (∀ x ∈ ([4, 16, 17, 15] : Row), (JCMode.digital Abc.dna).ok x = false) := by decide
+example : (∀ a ∈ ([[45, 45], [46, 126]] : List Row), a.length = 2) ∧
+    (∀ a ∈ ([[45, 45], [46, 126]] : List Row), lenSpec Mode.text a = 0) := by decide
+example : (1 : Nat) ∉ idFilterAdv (α := ℚ) Abc.amino { minspan := 0, rule := fun _ _ => true } (fun m _ => List.range m)
+    .origorder (1/2) none [[0, 0, 0], [20, 0, 20]] := by decide +kernel
+example : (Link.upgma).isLinkage = false ∧ (Link.wpgma).isLinkage = false ∧ (Link.single).isLinkage = true := by decide
+example : unalignedVisited [[65], [65, 67], [71]] (visitedPairs 3 10 []) = true ∧
+    unalignedVisited [[65], [65, 67], [71]] (visitedPairs 3 1 [(0, 2)]) = false := by decide
+
 end EaselModel.Props.C16
